@@ -617,3 +617,54 @@ def _conv_table(st, cls, rows):
                       to_dec_or_frac(parse_rat(o))))
     c.register_converter(TableConverter(table))
     return "ok"
+
+
+@op("q_conv3")
+def _q_conv3(st, a, v, w, d):
+    with dflt_mode(d):
+        return "ok qty " + show_qty(qty_of(a).convert(Unit(v)).convert(Unit(w)))
+
+
+@op("q_convback")
+def _q_convback(st, a, v, d):
+    with dflt_mode(d):
+        q = qty_of(a)
+        m = q.convert(Unit(v))
+        b = m.convert(q.unit)
+        eq = (q == m)
+        assert eq == (m == q)
+        return f"ok qty {show_qty(b)} eq={_b(eq)}"
+
+
+def _plain(kind):
+    import decimal
+    return {"int": 3, "bool": True, "Fraction": _F(3, 2), "Decimal": Decimal("1.5"),
+            "stdDecimal": decimal.Decimal("1.5"), "float": 1.5, "complex": 1 + 2j,
+            "str": "1.5", "None": None, "zero": 0}[kind]
+
+
+@op("q_mixnum")
+def _q_mixnum(st, o, a, kind):
+    qa, k = qty_of(a), _plain(kind)
+    fn = {"add": lambda: qa + k, "radd": lambda: k + qa, "sub": lambda: qa - k,
+          "rsub": lambda: k - qa, "lt": lambda: qa < k, "le": lambda: qa <= k,
+          "gt": lambda: qa > k, "ge": lambda: qa >= k, "eq": lambda: qa == k,
+          "ne": lambda: qa != k}[o]
+    r = fn()
+    if o in ("eq", "ne"):
+        r2 = (k == qa) if o == "eq" else (k != qa)
+        assert r == r2
+    if isinstance(r, bool):
+        return "ok " + _b(r)
+    return "ok " + show_val(r)
+
+
+@op("q_sum")
+def _q_sum(st, items, d):
+    from quantity import sum as qsum
+    with dflt_mode(d):
+        qs = [] if items == "-" else [qty_of(t) for t in items.split(",")]
+        r = qsum(qs)
+        if isinstance(r, Quantity):
+            return "ok qty " + show_qty(r)
+        return "ok num " + num_str(r)
